@@ -368,6 +368,10 @@ func valOf(v *big.Int) alpha.Val {
 func init() {
 	Parts["C06"] = Part{"C06", C06}
 	Replayers["C06"] = func(c Case) (bool, string) {
+		if c["op"] == "persist" {
+			return Replayers["C10"](c)
+		}
+
 		var key, detail string
 
 		a := valOf(unhx(c["a"]))
